@@ -151,9 +151,9 @@ type byzDealer struct {
 	sentLate   bool
 }
 
-var shareKinds = []string{"ok", "ok", "ok", "omit", "bad-tag", "wrong-size", "zero", "too-big", "wrong-value", "late", "duplicate", "empty"}
+var shareKinds = []string{"ok", "ok", "ok", "omit", "bad-tag", "wrong-size", "zero", "too-big", "plus-r", "wrong-value", "late", "duplicate", "empty"}
 var vecKinds = []string{"ok", "ok", "ok", "ok", "omit", "late", "wrong-size", "bad-point", "not-in-g2", "cancelling-non-g2", "duplicate", "twice-different"}
-var answerKinds = []string{"ok", "ok", "omit", "wrong", "wrong-size", "bad-complainer", "zero", "duplicate", "late", "unsolicited-first"}
+var answerKinds = []string{"ok", "ok", "omit", "wrong", "wrong-size", "bad-complainer", "zero", "plus-r", "duplicate", "late", "unsolicited-first"}
 var extraKinds = []string{"", "", "", "empty-bcast", "bad-tag", "malformed-complaint", "complaint-big-index", "complain-about-self", "unsolicited-answer", "spurious-complaint"}
 
 func (nt *dkgNet) newByzDealer(idx int) *byzDealer {
@@ -215,6 +215,8 @@ func (nt *dkgNet) byzRound1(b *byzDealer) {
 			m = shareMsg(big.NewInt(0))
 		case "too-big":
 			m = shareMsg(new(big.Int).Add(blsR, big.NewInt(1)))
+		case "plus-r": // the right share, not reduced: a different encoding, which the reader refuses
+			m = shareMsg(new(big.Int).Add(blsR, x))
 		case "wrong-value":
 			m = shareMsg(new(big.Int).Mod(new(big.Int).Add(x, big.NewInt(1)), blsR))
 		case "empty":
@@ -293,6 +295,8 @@ func (nt *dkgNet) byzReact(b *byzDealer, round int) {
 				nt.bcast(b.idx, answerMsg(nt.n+1, x))
 			case "zero":
 				nt.bcast(b.idx, answerMsg(k, big.NewInt(0)))
+			case "plus-r":
+				nt.bcast(b.idx, answerMsg(k, new(big.Int).Add(blsR, x)))
 			case "duplicate":
 				nt.bcast(b.idx, answerMsg(k, x))
 				nt.bcast(b.idx, answerMsg(k, x))
@@ -527,7 +531,7 @@ func dkgPredicates(nt *dkgNet, bds []*byzDealer, prop string) string {
 				preAnswered = true
 			}
 		}
-		if complainers > 0 && !preAnswered && (b.answerKind == "omit" || b.answerKind == "wrong" || b.answerKind == "wrong-size" || b.answerKind == "bad-complainer" || b.answerKind == "zero") {
+		if complainers > 0 && !preAnswered && (b.answerKind == "omit" || b.answerKind == "wrong" || b.answerKind == "wrong-size" || b.answerKind == "bad-complainer" || b.answerKind == "zero" || b.answerKind == "plus-r") {
 			must = "complaint answered with " + b.answerKind
 		}
 		if must != "" {
@@ -561,7 +565,7 @@ func dkgPredicates(nt *dkgNet, bds []*byzDealer, prop string) string {
 func genFvssOrders(c *Ctx) {
 	n, t, me, dealer := 4, 2, 1, 0
 	for _, vk := range []string{"ok", "wrong-size", "short-by-one-point", "bad-point", "bad-point-last", "not-in-g2", "not-in-g2-last", "cancelling-non-g2", "identity-points", "duplicate", "empty-payload"} {
-		for _, sk := range []string{"ok", "a0", "wrong-value", "wrong-size", "zero"} {
+		for _, sk := range []string{"ok", "a0", "wrong-value", "wrong-size", "zero", "plus-r", "plus-r-small", "plus-r-small2", "r-itself"} {
 			for order := 0; order < 6; order++ {
 				// orders 2..5: the dealer re-broadcasts the VALID vector after the invalid one (right after it, or at the
 				// end): the first vector decides, a later one must not repair the verdict
@@ -570,6 +574,14 @@ func genFvssOrders(c *Ctx) {
 					continue
 				}
 				p := c.randPoly(t)
+				if sk == "plus-r-small" || sk == "plus-r-small2" { // a dealer is free to pick small coefficients
+					for i := range p {
+						p[i] = big.NewInt(int64(1 + c.intn(1000)))
+						if sk == "plus-r-small2" {
+							p[i].Lsh(p[i], uint(c.intn(120)))
+						}
+					}
+				}
 				v := p.vectorMsg()
 				v0 := append([]byte{}, v...)
 				switch vk {
@@ -612,6 +624,10 @@ func genFvssOrders(c *Ctx) {
 					sh = shareMsg(p.eval(me + 1))[:30]
 				case "zero":
 					sh = shareMsg(big.NewInt(0))
+				case "plus-r", "plus-r-small", "plus-r-small2": // the right share, not reduced
+					sh = shareMsg(new(big.Int).Add(blsR, p.eval(me+1)))
+				case "r-itself":
+					sh = shareMsg(blsR)
 				}
 				nd, err := newDkgNode("fvss", n, t, me, dealer)
 				if err != nil {
